@@ -27,7 +27,7 @@ EXPLANATION = (
     'call; WorkerThread::CommHandler::initSearch clears killers and honours clearHistory; doSearch hands the flag on and resets it.'
     ' The forward of the contempt to the table in Search::setWhiteContempt may depend on the thread number only.'
     ' Added later; (4) clear() zeroes exactly the slots [0, tableSize): clear() itself - branch, chunk loop, worker closure, memset arguments - is interpreted for every table size the Hash option can produce (1..1024 MB quick, ..4096 MB thorough, and the halved fall-back sizes).'
-    ' Added later; History::init zeroes unconditionally. (5) the queue of option changes waiting for an idle engine keeps the latest value per option (overwriting store of the value parameter under the name parameter; no emplace / insert on the queue).')
+    ' Added later; History::init zeroes unconditionally. (5) the queue of option changes waiting for an idle engine keeps the latest value per option (overwriting store of the value parameter under the name parameter; no emplace / insert on the queue). (6) = C07.7 the material-class flags cached in the material hash are computed from the material alone.')
 UNDECIDED = ('equality of node counts as such; influence of state outside these classes (static-storage writers reachable from '
              'the search are listed under coverage.static_storage_writers for review, not judged); hash-key collisions in the '
              'evaluation cache.')
@@ -56,6 +56,9 @@ def run(fb, rep, tier):
     C07.c3_cache(fb, rep, clause='C14.3')
     c4_clear_covers_table(fb, rep, tier)
     c5_option_queue_last_wins(fb, rep)
+    # .6 the material-class flags cached in the material hash (which Clear Hash keeps, being a pure function of its key) are
+    # computed from the material alone (shared with C07.7)
+    C07.c7_classification_is_material(fb, rep, 'C14.6')
     surv = fb.find1('EngineControl::EngineControl')
     if surv is not None:
         lam_clears = set()
@@ -569,13 +572,12 @@ def c4_clear_covers_table(fb, rep, tier):
 
 # ----------------------------------------------------------------------------- .5
 
-def c5_option_queue_last_wins(fb, rep):
+def c5_option_queue_last_wins(fb, rep, clause='C14.5'):
     """K10 the queue of option changes that waits for the engine thread to become idle holds one value per option, and it must
     be the *latest* one: a change followed by its revert while both are still queued (sent during a search, or back to
     back) otherwise leaves the changed value in force, and `Clear Hash` does not reset options.  The queueing function must
     store the value parameter under the name parameter with overwrite semantics (`queue[name] = value`, insert_or_assign);
     map operations that keep an existing element (emplace, insert, try_emplace) are not accepted anywhere on the queue."""
-    clause = 'C14.5'
     f = fb.find1('EngineMainThread::setOptionWhenIdle')
     if rep.need(clause, f, 'EngineMainThread::setOptionWhenIdle') is None:
         return
